@@ -1764,6 +1764,7 @@ def simplify(spec):
 
 ENUM_ALPHABET = ["start", "join", "join_t", "cancel", "state", "setter", "result", "advance", "getter"]
 ENUM_FAULTS = ["ok", "launch", "nonzero", "hang", "out", "tree", "slow"]
+ENUM_KINDS = KINDS + ["stubweb"]  # stubweb: the polling stub as a WebApp behind a rate-limiting simulated server
 ENUM_LEN = {"quick": 3, "thorough": 4}
 
 
@@ -1771,15 +1772,19 @@ def enum_size(length):
     n = 0
     for L in range(1, length + 1):
         n += len(ENUM_ALPHABET) ** L
-    return n * len(ENUM_FAULTS) * len(KINDS)
+    return n * len(ENUM_FAULTS) * len(ENUM_KINDS)
 
 
 def enum_spec(index, length):
     """index -> (kind, fault, call sequence) in a fixed mixed-radix order; data (sequences etc.) is small and fixed."""
-    per_seq = len(ENUM_FAULTS) * len(KINDS)
+    per_seq = len(ENUM_FAULTS) * len(ENUM_KINDS)
     seq_i, rest = divmod(index, per_seq)
-    fault = ENUM_FAULTS[rest // len(KINDS)]
-    kind = KINDS[rest % len(KINDS)]
+    fault = ENUM_FAULTS[rest // len(ENUM_KINDS)]
+    kind = ENUM_KINDS[rest % len(ENUM_KINDS)]
+    web = None
+    if kind == "stubweb":
+        kind = "stubpoll"
+        web = {"obey": True, "gap": 5.0, "msg": None, "url": "https://sim.example/cgi"}
     L = 1
     while seq_i >= len(ENUM_ALPHABET) ** L:
         seq_i -= len(ENUM_ALPHABET) ** L
@@ -1810,6 +1815,8 @@ def enum_spec(index, length):
         if kind == "stubpoll":
             script["wi"] = 1.0
             script.setdefault("eval", "ok")
+            if web:
+                w["web"] = web
         else:
             script["stdout"] = "hello\n"
     else:
@@ -1836,10 +1843,10 @@ def enum_spec(index, length):
         elif c == "result":
             ops.append({"w": 0, "op": RESULTS[kind][0] if RESULTS[kind] else "get_stdout"})
         elif c == "getter":
-            ops.append({"w": 0, "op": "get_command" if kind != "stubpoll" else "state"})
+            ops.append({"w": 0, "op": "get_command" if kind != "stubpoll" else ("app_url" if web else "state")})
         else:
             ops.append({"w": 0, "op": c})
-    return {"cfg": {"wrappers": [w], "jumps": [], "name_seed": index}, "ops": ops, "enum": {"kind": kind, "fault": fault, "calls": calls}}
+    return {"cfg": {"wrappers": [w], "jumps": [], "name_seed": index}, "ops": ops, "enum": {"kind": "stubweb" if web else kind, "fault": fault, "calls": calls}}
 
 
 class _EnumModule:
@@ -1882,7 +1889,7 @@ def extra_phase(tier, seed, total, workers, scratch):
         v["phase"] = "enum"
     total.merge(agg)
     info = {"systematic_prefix": {
-        "what": f"every call sequence of length <= {length} over {ENUM_ALPHABET} x fault kinds {ENUM_FAULTS} x wrapper kinds {KINDS}",
+        "what": f"every call sequence of length <= {length} over {ENUM_ALPHABET} x fault kinds {ENUM_FAULTS} x wrapper kinds {ENUM_KINDS}",
         "runs": agg.runs, "expected_runs": n, "exhaustive_over_this_family": agg.runs == n and not truncated, "violations": len(agg.violations)}}
     # ---- conformance: sampled histories against REAL child processes (gated fake executables) ----
     nreal = int(os.environ.get("VERIF_REAL_RUNS") or REAL_RUNS.get(tier, REAL_RUNS["quick"]))
